@@ -370,8 +370,8 @@ class SetWithKnownFields(Validator):
 
         try:
             set_with = list(to_pairs(element.raw))
-        except TypeError:
-            # wasn't iterable
+        except (TypeError, ValueError):
+            # wasn't iterable, or not an iterable of pairs
             return True
 
         unexpected = _evaluate_dict_subset_policy(element, set_with)
@@ -466,8 +466,8 @@ class SetWithAllFields(Validator):
 
         try:
             set_with = list(to_pairs(element.raw))
-        except TypeError:
-            # wasn't iterable
+        except (TypeError, ValueError):
+            # wasn't iterable, or not an iterable of pairs
             return True
 
         missing, unexpected = _evaluate_dict_strict_policy(element, set_with)
